@@ -533,6 +533,9 @@ impl Object for u32 {
 }
 impl ObjectWrite for u32 {
     fn to_primitive(&self, _: &mut impl Updater) -> Result<Primitive> {
+        if *self > i32::MAX as u32 {
+            bail!("{} does not fit a PDF integer", self);
+        }
         Ok(Primitive::Integer(*self as _))
     }
 }
@@ -547,6 +550,9 @@ impl Object for usize {
 }
 impl ObjectWrite for usize {
     fn to_primitive(&self, _: &mut impl Updater) -> Result<Primitive> {
+        if *self > i32::MAX as usize {
+            bail!("{} does not fit a PDF integer", self);
+        }
         Ok(Primitive::Integer(*self as _))
     }
 }
